@@ -127,23 +127,33 @@ PROPS["C04"] = {
 # ------------------------------------------------------------------------------------------------------------ C08
 _c08_lens = [0, 1, 2, 3, 4, 5, 6, 7, 8, 9, 10, 11, 12, 13, 14, 15, 16, 17, 18, 19, 20, 21, 22, 23, 24, 25, 26, 31, 32, 40, 48]
 _c08_quick = {0, 1, 8, 23, 24, 25, 40}
+_c08_dq = {("enc", 0), ("enc", 2), ("enc", 23), ("enc", 24), ("plain", 0), ("plain", 1), ("pending", 0), ("pending", 1), ("pending", 2), ("linger", 0), ("linger", 1)}
 PROPS["C08"] = {
     "files": ["src/crypto/core.rs", "src/crypto/common.rs", "src/util.rs"],
-    "functions": ["CryptoCore::decrypt", "CryptoCore::decrypt_with_key", "MsgBuffer window methods"],
-    "bounds": "sealed-datagram path: datagram lengths 0..=26, 31, 32, 40, 48 (each its own instance; quick: 0,1,8,23,24,25,40), "
+    "functions": ["CryptoCore::decrypt", "CryptoCore::decrypt_with_key", "PeerCrypto::handle_message", "PeerCrypto::handle_init_message",
+                  "PeerCrypto::decrypt_message", "PeerCrypto::handle_rotate_message", "is_init_message", "MsgBuffer window methods"],
+    "bounds": "dispatch: connection states {established encrypted, established plain, handshake pending, encrypted with lingering "
+              "handshake} x datagram lengths {0,1,2,23,24,25,40} (encrypted state: 1 omitted - that single instance exhausts 20 GB in CBMC's propositional reduction, 2 and 23 do not) x 40 arbitrary stale bytes in the reused receive buffer; "
+              "InitState::handle_init replaced by 'rejects with an arbitrary error' (what an outsider can cause, see C01), "
+              "RotationState::handle_message replaced by assert(false) (shown unreachable for an outsider). sealed-datagram path: datagram lengths 0..=26, 31, 32, 40, 48 (each its own instance; quick: 0,1,8,23,24,25,40), "
               "all bytes symbolic, window state and AEAD verdict arbitrary; buffer headroom 100 bytes as on the receive path",
     "outside": "handshake-marker path (InitMsg::read_from does not complete under symbolic execution); dispatch on source "
                "address in GenericCloud; sequences of datagrams; 65535-byte datagrams",
     "assumptions": RING_ASSUME,
     "obligations": [K("c08_core_decrypt_total_len%02d" % n, "CryptoCore::decrypt returns on every %d-byte datagram" % n,
-                      ("quick", "thorough") if n in _c08_quick else T, role="c08_core_decrypt_total") for n in _c08_lens],
+                      ("quick", "thorough") if n in _c08_quick else T, role="c08_core_decrypt_total") for n in _c08_lens] +
+                   [K("c08_dispatch_%s_len%02d" % (st, n), "PeerCrypto::handle_message, connection %s, %d-byte datagram + arbitrary stale buffer: no fault, nothing accepted, window well formed" % (st, n),
+                      ("quick", "thorough") if (st, n) in _c08_dq else T, role="c08_dispatch")
+                    for (st, n) in [("enc", 0), ("enc", 2), ("enc", 23), ("enc", 24), ("enc", 25), ("enc", 40),
+                                    ("plain", 0), ("plain", 1), ("plain", 2), ("plain", 40),
+                                    ("pending", 0), ("pending", 1), ("pending", 2), ("pending", 24), ("pending", 40),
+                                    ("linger", 0), ("linger", 1), ("linger", 24), ("linger", 40)]],
 }
 
 STD_ASSUME = [
     "Kani 0.68 / CBMC 6.11 (cadical) and rustc's MIR are trusted; counterexamples are replayed natively before being reported",
     "log macros are dead code at the default max level (Off)",
 ]
-
 
 TABLE_ASSUME = STD_ASSUME + [
     "std HashMap (hashbrown+fnv) replaced by an insertion-ordered association list with the same API; the checked functions do not depend on hash iteration order",
@@ -308,5 +318,26 @@ PROPS["C20"] = {
         K("c20_netmask_two_digits", "prefix 00..=99: Ok iff <= 32 with the right mask", role="c20_netmask", timeout={"quick": 600}),
         K("c20_netmask_three_digits", "prefix 000..=999", T, role="c20_netmask"),
         K("c20_netmask_default_24", "/24 when omitted"),
+    ],
+}
+
+# ------------------------------------------------------------------------------------------------------------ C18
+PROPS["C18"] = {
+    "files": ["src/crypto/common.rs", "src/util.rs"],
+    "functions": ["Crypto::generate_keypair", "Crypto::parse_private_key", "Crypto::parse_public_key", "Crypto::parse_keypair",
+                  "Crypto::public_key_from_private_key", "Crypto::parse_key_bytes"],
+    "bounds": "all 2^256 seeds (arbitrary RNG output) through the real key API; the text codec is replaced by its contract "
+              "(see assumptions) because to_base62/from_base62 do not complete under CBMC even for 2 bytes",
+    "outside": "the text codec itself on arbitrary strings (only assumed); PBKDF2 determinism and password-derived trust between "
+               "two nodes (ring is a model); Crypto::new end to end (speed measurement)",
+    "assumptions": RING_ASSUME[1:] + [
+        "CODEC CONTRACT (assumed, not verified): to_base62 renders the big-endian number, i.e. the bytes without leading zero "
+        "bytes, and from_base62 returns exactly those bytes; under native replay the real codec runs, so a counterexample "
+        "never depends on the contract - a PASS does",
+        "ring::signature::Ed25519KeyPair model: public key = fixed bijection of the seed; seeds/keys of length != 32 rejected as ring does",
+    ],
+    "obligations": [
+        K("c18_generated_keys_are_accepted", "generated key pair accepted as private / public / pair and denotes the same keys; private key yields its public key",
+          role="c18_key_api"),
     ],
 }
